@@ -149,7 +149,7 @@ theorem add_decision (s : St) (h : SInv s) (t : Nat) (v : Int) :
     exact r2 hne
 
 /-- `BlockingAdd` never reports "full"/"nocredit": it adds only below the soft quota, where the tracker
-    admits unconditionally -/
+    accepts unconditionally -/
 theorem badd_results (s : St) (h : SInv s) {t : Nat} {v : Int} {first c : Bool} {o : SegOut St} {r : String}
     (hs : IsSeg s t (.badd v) first c o) (hr : o.fin = .ret r) : r = "ok" ∨ r = "closed" ∨ r = "ctx" := by
   have hsim := (seg_sim h hs rfl).2
